@@ -38,6 +38,9 @@ using namespace Gudhi::persistence_matrix;
 #ifndef RMROWS
 #define RMROWS 0
 #endif
+#ifndef PAIR
+#define PAIR 1     // 0: no stored barcode (RU only): the harness reads the pairing off the pivots of R
+#endif
 #ifndef MAPC
 #define MAPC 0
 #endif
@@ -49,7 +52,7 @@ using namespace Gudhi::persistence_matrix;
 #endif
 using Zp = Gudhi::persistence_fields::Zp_field_operators<>;
 struct Opt : Default_options<Column_types::COLT, Z2ONLY != 0, Zp> {
-  static const bool has_column_pairings = true;
+  static const bool has_column_pairings = PAIR;
   static const bool is_of_boundary_type = (FLAV != 2);
   static const bool has_vine_update = (VINE != 0);
   static const bool can_retrieve_representative_cycles = (REP != 0);
@@ -98,9 +101,23 @@ template <class Col> static Vec content(const Col& c, long p) { Vec v;
   if constexpr (kLazyColumn) { auto dense = c.get_content(256); for (long r = 0; r < (long)dense.size(); ++r) { long x = O::is_z2 ? (dense[r] ? 1 : 0) : (long)dense[r] % p; if (x) v[r] = x; } return v; }
   else for (const auto& e : c) { long x = 1; if constexpr (!O::is_z2) x = (long)e.get_element() % p; if (x) { long r = (long)e.get_row_index(); v[r] = md((v.count(r) ? v[r] : 0) + x, p); if (!v[r]) v.erase(r); } } return v; }
 
-static std::string bars(State& s) {
+// the barcode in positions: the stored one, or (no stored barcode, boundary-type matrices) the pairing read off the pivots of R
+static std::vector<std::tuple<int, long, long>> barcode_of(State& s) {
   std::vector<std::tuple<int, long, long>> b;
-  for (auto& bar : s.m->get_current_barcode()) b.push_back({bar.dim, (long)bar.birth, bar.death == (decltype(bar.death))-1 ? -1 : (long)bar.death});
+  if constexpr (O::has_column_pairings) {
+    for (auto& bar : s.m->get_current_barcode()) b.push_back({bar.dim, (long)bar.birth, bar.death == (decltype(bar.death))-1 ? -1 : (long)bar.death});
+  } else {
+    long n = (long)s.order.size(); std::map<long, long> rowPos; for (long i = 0; i < n; ++i) rowPos[s.cur.at(s.order[i])] = i;
+    std::map<long, long> lows;
+    for (long j = 0; j < n; ++j) { Vec c = content(s.m->get_column(colIndex(s, j)), s.p); long low = -1; for (auto& kv : c) { auto it = rowPos.find(kv.first); if (it != rowPos.end()) low = std::max(low, it->second); } if (low >= 0) lows[low] = j; else if (!c.empty()) lows[-2 - j] = j; }
+    for (auto& kv : lows) if (kv.first >= 0) b.push_back({(int)s.dim[s.order[kv.first]], kv.first, kv.second});
+    std::set<long> deaths; for (auto& kv : lows) deaths.insert(kv.second);
+    for (long j = 0; j < n; ++j) if (!lows.count(j) && !deaths.count(j)) b.push_back({(int)s.dim[s.order[j]], j, -1});
+  }
+  return b; }
+
+static std::string bars(State& s) {
+  std::vector<std::tuple<int, long, long>> b = barcode_of(s);
   std::sort(b.begin(), b.end());
   std::ostringstream o; o << "bars"; for (auto& t : b) { o << " " << std::get<0>(t) << ":" << std::get<1>(t) << ":"; if (std::get<2>(t) < 0) o << "inf"; else o << std::get<2>(t); }
   return o.str(); }
@@ -108,8 +125,7 @@ static std::string bars(State& s) {
 // the defining identities on the real columns; "ident 1" or the first failing clause
 static std::string ident(State& s) {
   long n = (long)s.order.size(); long p = s.p;
-  std::vector<std::tuple<int, long, long>> b;
-  for (auto& bar : s.m->get_current_barcode()) b.push_back({bar.dim, (long)bar.birth, bar.death == (decltype(bar.death))-1 ? -1 : (long)bar.death});
+  std::vector<std::tuple<int, long, long>> b = barcode_of(s);
   if constexpr (!kChain) {
     // rows are in position coordinates (ids are handed out in insertion order and swapped together with the rows)
     std::vector<Vec> R(n), B(n);
@@ -209,14 +225,14 @@ static int run() {
       }
       if constexpr (O::has_vine_update) {
         if (o == "swap") { long i = L(t[1]); std::vector<std::tuple<int, long, long>> before, after;
-          for (auto& bar : s.m->get_current_barcode()) before.push_back({bar.dim, (long)bar.birth, bar.death == (decltype(bar.death))-1 ? -1 : (long)bar.death});
+          before = barcode_of(s);
           std::string ret;
           if constexpr ((O::is_of_boundary_type && !kIdId) || (!O::is_of_boundary_type && kIdPos)) { bool r = s.m->vine_swap((unsigned)i); ret = r ? "1" : "0"; }
           else if constexpr (kIdId) { s.m->vine_swap((unsigned)colIndex(s, i), (unsigned)colIndex(s, i + 1)); ret = "idx"; }
           else { unsigned r = s.m->vine_swap((unsigned)s.matidx[i], (unsigned)s.matidx[i + 1]); unsigned other = (r == (unsigned)s.matidx[i]) ? s.matidx[i + 1] : s.matidx[i]; s.matidx[i + 1] = r; s.matidx[i] = other; ret = "idx"; }
           if constexpr (!kChain) std::swap(s.cur.at(s.order[i]), s.cur.at(s.order[i + 1]));
           std::swap(s.order[i], s.order[i + 1]);
-          for (auto& bar : s.m->get_current_barcode()) after.push_back({bar.dim, (long)bar.birth, bar.death == (decltype(bar.death))-1 ? -1 : (long)bar.death});
+          after = barcode_of(s);
           std::sort(before.begin(), before.end()); std::sort(after.begin(), after.end());
           auto exch = before; for (auto& x : exch) { long& bi = std::get<1>(x); long& di = std::get<2>(x); if (bi == i) bi = i + 1; else if (bi == i + 1) bi = i; if (di == i) di = i + 1; else if (di == i + 1) di = i; } std::sort(exch.begin(), exch.end());
           bool kept = (after == exch), unchanged = (after == before);
@@ -239,7 +255,7 @@ static int run() {
       }
       if constexpr (O::can_retrieve_representative_cycles) {
         if (o == "cycles") { s.m->update_representative_cycles(); auto& cycles = s.m->get_representative_cycles();
-          std::set<long> births; for (auto& bar : s.m->get_current_barcode()) births.insert((long)bar.birth);
+          std::set<long> births; for (auto& t_ : barcode_of(s)) births.insert(std::get<1>(t_));
           if (cycles.size() != births.size()) return "cycles count " + std::to_string(cycles.size()) + " bars " + std::to_string(births.size());
           std::set<long> young;
           for (auto& c : cycles) { Vec acc; long mx = -1; int d = -2;
